@@ -131,6 +131,9 @@ func c28Body(p c28Params) func() {
 					for k := 0; k < 2; k++ {
 						e.ns.SetAttribute(e.nodeID(k), ua.AttributeIDValue, server.DataValueFromValue(c28Val(k, j)))
 						e.ns.ChangeNotification(e.nodeID(k))
+						// the application produces its values over time: whatever the other threads do to the
+						// same node's monitored items happens between two of its calls
+						time.Sleep(10 * time.Millisecond)
 					}
 				}
 			})
